@@ -284,6 +284,31 @@ func init() {
 		"math.IsNaN": func(ex *Exec, st *State, fn *ssa.Function, args []Value) Value {
 			return ex.ctx.FIsNaN(args[0].(*Term))
 		},
+		// time.Time model: {wall: 0, ext: nanoseconds since the Unix epoch (UTC), loc: nil}; see DESIGN.md section 4.
+		"(time.Time).Add": func(ex *Exec, st *State, fn *ssa.Function, args []Value) Value {
+			return timeFromNs(ex, ex.ctx.BvBin(OBvAdd, timeNs(args[0]), args[1].(*Term)))
+		},
+		"(time.Time).Sub": func(ex *Exec, st *State, fn *ssa.Function, args []Value) Value {
+			return ex.ctx.BvBin(OBvSub, timeNs(args[0]), timeNs(args[1]))
+		},
+		"(time.Time).Before": func(ex *Exec, st *State, fn *ssa.Function, args []Value) Value {
+			return ex.ctx.BvCmp(OBvSLt, timeNs(args[0]), timeNs(args[1]))
+		},
+		"(time.Time).After": func(ex *Exec, st *State, fn *ssa.Function, args []Value) Value {
+			return ex.ctx.BvCmp(OBvSLt, timeNs(args[1]), timeNs(args[0]))
+		},
+		"(time.Time).Equal": func(ex *Exec, st *State, fn *ssa.Function, args []Value) Value {
+			return ex.ctx.Eq(timeNs(args[0]), timeNs(args[1]))
+		},
+		"(time.Time).UnixNano": func(ex *Exec, st *State, fn *ssa.Function, args []Value) Value {
+			return timeNs(args[0])
+		},
+		"verif:verifTimeFromUnixNano": func(ex *Exec, st *State, fn *ssa.Function, args []Value) Value {
+			return timeFromNs(ex, args[0].(*Term))
+		},
+		"verif:verifTimeUnixNano": func(ex *Exec, st *State, fn *ssa.Function, args []Value) Value {
+			return timeNs(args[0])
+		},
 		"time.Date": func(ex *Exec, st *State, fn *ssa.Function, args []Value) Value {
 			var a [7]int
 			for i := 0; i < 7; i++ {
@@ -294,11 +319,7 @@ func init() {
 				a[i] = int(sext64(t.Val, t.S.W))
 			}
 			tm := time.Date(a[0], time.Month(a[1]), a[2], a[3], a[4], a[5], a[6], time.UTC)
-			// time.Time{wall, ext, loc}: no monotonic reading: wall = nsec, ext = seconds since year 1
-			const unixToInternal int64 = (1969*365 + 1969/4 - 1969/100 + 1969/400) * 86400
-			wall := uint64(tm.Nanosecond())
-			ext := tm.Unix() + unixToInternal
-			return &StructV{F: []Value{ex.ctx.BVConst(64, wall), ex.ctx.BVConst(64, uint64(ext)), PtrV{}}}
+			return timeFromNs(ex, ex.ctx.BVConst(64, uint64(tm.UnixNano())))
 		},
 	}
 }
@@ -376,4 +397,17 @@ func (ex *Exec) ufApp(st *State, name string, ret Sort, args ...*Term) *Term {
 	}
 	st.ufApps = append(st.ufApps, t)
 	return t
+}
+
+
+func timeNs(v Value) *Term {
+	s, ok := v.(*StructV)
+	if !ok || len(s.F) != 3 {
+		throwf("time.Time value expected, got %T", v)
+	}
+	return s.F[1].(*Term)
+}
+
+func timeFromNs(ex *Exec, ns *Term) Value {
+	return &StructV{F: []Value{ex.ctx.BVConst(64, 0), ns, PtrV{}}}
 }
